@@ -220,6 +220,37 @@ class Engine(object):
         self.obligations.append(Obligation(full, list(P.pc), goal, kind, info))
         P.assume(goal)
 
+    def prove_spec(self, P, name, src, sctx, kind):
+        """Obligation for a contract expression.  A top-level forall(...) is skolemised (fresh constants): facts the
+        models add about sub-terms (quotient lemmas, pow10 laws) then speak about the very constants of the goal."""
+        node = self.parse(src) if isinstance(src, str) else src
+        if (isinstance(node, ast.Call) and isinstance(node.func, ast.Name) and node.func.id == "forall"
+                and node.args and isinstance(node.args[0], ast.Lambda)):
+            lam = node.args[0]
+            kinds = [a.value for a in node.args[1:]]
+            names = [a.arg for a in lam.args.args]
+            while len(kinds) < len(names):
+                kinds.append("int")
+            bound = [self.sym("sk_" + n, k) for n, k in zip(names, kinds)]
+            fr = self.new_frame(P, dict(zip(names, bound)))
+            return self.prove_spec(P, name, lam.body, sctx.child(fr), kind)
+        if (isinstance(node, ast.Call) and isinstance(node.func, ast.Name) and node.func.id == "implies"
+                and len(node.args) == 2):
+            res = self.ev(node.args[0], P, sctx)
+            if len(res) == 1:
+                hyp = self.truth(res[0][1], P)
+                Q = P.clone()
+                Q.assume(hyp)
+                before = len(self.obligations)
+                self.prove_spec(Q, name, node.args[1], sctx, kind)
+                # facts established under the hypothesis are assumed on P only in guarded form
+                for ob in self.obligations[before:]:
+                    if not z3.is_true(ob.goal):
+                        P.assume(z3.Implies(hyp, ob.goal))
+                return
+        for (p, v) in self.ev(node, P, sctx):
+            self.oblige(P, name, self.truth(v, P), kind)
+
     def fail(self, P, name, detail=""):
         """A path that must not be feasible (Python would raise here)."""
         self.oblige(P, name, z3.BoolVal(False), "safe", {"detail": detail})
@@ -1310,8 +1341,7 @@ class Engine(object):
         sctx = Ctx(f.mod, (fr,), True, qual)
         k = self.site()
         for i, (nm, src) in enumerate(self.named(con.get("requires", []))):
-            for (p, v) in self.ev(self.parse(src), P, sctx):
-                self.oblige(P, "call.%s.pre.%s#%d" % (qual, nm, k), self.truth(v, P), "pre", {"callee": qual})
+            self.prove_spec(P, "call.%s.pre.%s#%d" % (qual, nm, k), src, sctx, "pre")
         pre = P.clone()
         # havoc
         for key in con.get("modifies", []):
@@ -1675,8 +1705,7 @@ class Engine(object):
             self.assign_name(P, ctx, idxname, lo, ())
         # --- init
         for (nm, src) in invs:
-            for (p, v) in self.ev(self.parse(src), P, sctx):
-                self.oblige(P, "loop%d.inv.init.%s" % (k, nm), self.truth(v, P), "inv")
+            self.prove_spec(P, "loop%d.inv.init.%s" % (k, nm), src, sctx, "inv")
         # --- havoc
         mod_locals = set(loop_assigned(st.body)) | set(spec.get("extra_locals", []))
         if kind == "for":
@@ -1754,8 +1783,7 @@ class Engine(object):
                             raise SpecError("loop %d of %s writes heap fields %s not in its modifies clause"
                                             % (k, fn, sorted(undeclared)))
                         for (nm, src) in invs:
-                            for (p, v) in self.ev(self.parse(src), r, sctx):
-                                self.oblige(r, "loop%d.inv.preserve.%s" % (k, nm), self.truth(v, r), "inv")
+                            self.prove_spec(r, "loop%d.inv.preserve.%s" % (k, nm), src, sctx, "inv")
                         if dec0 is not None:
                             d1 = self.ev(self.parse(spec["dec"]), r, sctx)[0][1]
                             self.oblige(r, "loop%d.variant" % k,
